@@ -61,7 +61,7 @@ func (it *unindexedMessageIterator) NextInto(msg *Message) (*Schema, *Channel, *
 				// channel ID, it has no option but to skip.
 				continue
 			}
-			if msg.LogTime >= it.start && msg.LogTime < it.end {
+			if msg.LogTime >= it.start && beforeEnd(msg.LogTime, it.end) {
 				schema := it.schemas.Get(channel.SchemaID)
 				if schema == nil && channel.SchemaID != 0 {
 					return nil, nil, nil, fmt.Errorf("channel %d with unrecognized schema ID %d", msg.ChannelID, channel.SchemaID)
